@@ -56,6 +56,10 @@ Definition inverse (p : pose) : pose :=
 Definition transform (p : pose) (x : vec) : vec := vadd (mvmul (rot (pr p)) x) (pt p).
 Definition transform_points (p : pose) (xs : list vec) : list vec := map (transform p) xs.
 
+(* PoseTransform.rescale(scale): the ONE method that changes a pose in place: t := t * scale, r untouched
+   (used by kapture.trajectory_rescale_inplace).  As a function of the current value: *)
+Definition rescale (s : Q) (p : pose) : pose := mkP (pr p) (vscale s (pt p)).
+
 (* ------------------------------------------------------------------ 2. the code, exact arithmetic *)
 Definition compose2_impl (a b : pose) : pose :=
   mkP (qmul (pr a) (pr b)) (vadd (mvmul (rot_impl (pr a)) (pt b)) (pt a)).
@@ -130,6 +134,54 @@ Definition transform_api (p : opose) (rows : list (list Q)) : outcome (list vec)
   | _, _ => Raises
   end.
 
+(* rescale on a pose whose t is None does nothing *)
+Definition rescale_api (s : Q) (p : opose) : opose :=
+  mkO (o_r p) (match o_t p with Some t => Some (vred (vscale s t)) | None => None end).
+
+(* ------------------------------------------------------------------ 4. histories on the same objects
+   A PoseTransform object holds nothing but its current (r, t): what inverse / compose / transform_points
+   return is a function of the CURRENT values of their operands, whatever was called before, they create a
+   new object and change no existing one; rescale changes its target only.  The store is the list of live
+   objects (index = identity, results are appended).  None = the call raised or produced NaN; such steps
+   are not continued.  Aliasing is not modelled: compose([p]) returns p itself in the code, here a copy; the
+   harness does not use one-element compose inside histories. *)
+Inductive hop :=
+| HInverse (i : nat)
+| HCompose (ids : list nat)
+| HRescale (i : nat) (s : Q).
+
+Fixpoint nths {A} (l : list A) (ids : list nat) : option (list A) :=
+  match ids with
+  | [] => Some []
+  | i :: ids' => match nth_error l i, nths l ids' with Some x, Some xs => Some (x :: xs) | _, _ => None end
+  end.
+Fixpoint set_nth {A} (l : list A) (i : nat) (x : A) : list A :=
+  match l, i with
+  | [], _ => []
+  | _ :: l', O => x :: l'
+  | y :: l', S i' => y :: set_nth l' i' x
+  end.
+Definition hstep (st : list opose) (op : hop) : option (list opose) :=
+  match op with
+  | HInverse i =>
+      match nth_error st i with
+      | Some p => match inverse_api p with Ok m => Some (st ++ [m]) | _ => None end
+      | None => None
+      end
+  | HCompose ids =>
+      match nths st ids with
+      | Some ps => match compose_api ps with Ok m => Some (st ++ [m]) | _ => None end
+      | None => None
+      end
+  | HRescale i s =>
+      match nth_error st i with
+      | Some p => Some (set_nth st i (rescale_api s p))
+      | None => None
+      end
+  end.
+Definition hrun (st : list opose) (ops : list hop) : option (list opose) :=
+  fold_left (fun acc op => match acc with Some s => hstep s op | None => None end) ops (Some st).
+
 (* ------------------------------------------------------------------ correspondence
    One case = a list of calls made on the real implementation, each with what it returned.  The model's
    exact result is compared with the observed doubles (as exact rationals) with the property's relative
@@ -153,7 +205,13 @@ Inductive call :=
        bits whose gcds dominate the shard time; stepping from the observed doubles keeps every number small,
        and a deviation of the implementation at any step still shows at that step. *)
 | CInverse (p : opose) (o : outcome opose)
-| CTransform (p : opose) (rows : list (list Q)) (o : outcome (list vec)).
+| CTransform (p : opose) (rows : list (list Q)) (o : outcome (list vec))
+| CHistory (st : list opose) (steps : list (list hop * option (list opose))).
+    (* a program run on the SAME PoseTransform objects: st = their values at the start, and for every step (one
+       call, or the calls one Trajectories-level function makes) the values of ALL live objects observed after it
+       (None: the step raised / returned NaN).  Each step is checked as hrun applied to the store observed before it (same reason as CChain): the new object must be
+       the model's function of the current operand values, every other object must be unchanged, rescale must
+       change its target only.  A result that depends on an earlier call (a stale cache) fails here. *)
 
 Definition opt_close {A} (cl : A -> A -> bool) (m o : option A) : bool :=
   match m, o with
@@ -192,6 +250,49 @@ Fixpoint chain_ok (acc : outcome opose) (ps : list opose) (os : list (outcome op
   | _, _ => false
   end.
 
+Definition qeqb (a b : quat) : bool :=
+  Qeq_bool (qw a) (qw b) && Qeq_bool (qx a) (qx b) && Qeq_bool (qy a) (qy b) && Qeq_bool (qz a) (qz b).
+Definition veqb (a b : vec) : bool := Qeq_bool (vx a) (vx b) && Qeq_bool (vy a) (vy b) && Qeq_bool (vz a) (vz b).
+Definition opose_eqb (a b : opose) : bool := opt_close qeqb (o_r a) (o_r b) && opt_close veqb (o_t a) (o_t b).
+(* object by object; identical values (the common case: untouched objects) are recognised without arithmetic *)
+Fixpoint store_close (ms os : list opose) : bool :=
+  match ms, os with
+  | [], [] => true
+  | m :: ms', o :: os' => (opose_eqb m o || opose_close (tscale [m]) m o) && store_close ms' os'
+  | _, _ => false
+  end.
+(* after one inverse / compose the store is the old one, untouched, plus one object compared by cl *)
+Fixpoint store_close_last (cl : opose -> opose -> bool) (ms os : list opose) : bool :=
+  match ms, os with
+  | [m], [o] => cl m o
+  | m :: ms', o :: os' => opose_eqb m o && store_close_last cl ms' os'
+  | _, _ => false
+  end.
+Definition step_close (st : list opose) (ops : list hop) (ms os : list opose) : bool :=
+  match ops with
+  | [HInverse i] =>      (* rotation of conj r_i, translation relative to |t_i| *)
+      match nth_error st i with
+      | Some p => store_close_last (fun m o => opose_close_with (option_map qconj (o_r p)) (tscale [p]) m o) ms os
+      | None => false
+      end
+  | [HCompose ids] =>    (* translation relative to the operands' translations (the result may cancel to ~0) *)
+      match nths st ids with
+      | Some ps => store_close_last (opose_close (tscale ps)) ms os
+      | None => false
+      end
+  | _ => store_close ms os
+  end.
+Fixpoint history_ok (st : list opose) (steps : list (list hop * option (list opose))) : bool :=
+  match steps with
+  | [] => true
+  | (ops, obs) :: rest =>
+      match hrun st ops, obs with
+      | Some ms, Some os => step_close st ops ms os && history_ok os rest
+      | None, None => history_ok st rest
+      | _, _ => false
+      end
+  end.
+
 Definition check_call (c : call) : bool :=
   match c with
   | CCompose ps o => outcome_close (opose_close (tscale ps)) (compose_api ps) o
@@ -214,6 +315,7 @@ Definition check_call (c : call) : bool :=
       | Raises, Raises => true
       | _, _ => false
       end
+  | CHistory st steps => history_ok st steps
   end.
 
 Definition case := list call.
